@@ -41,6 +41,7 @@ func genC20(g *G) {
 		kind := g.R.Pick("can", "vcan")
 		g.Emit("nlli %s %s %d %d", kind, strings.Join(bt[:], " "), pickU32(g), pickU32(g))
 	}
+	genLinkInfoStreams(g, g.N(600, 40000))
 	// one-hot per field
 	for f := 0; f < 8; f++ {
 		for b := 0; b < 32; b++ {
@@ -75,8 +76,78 @@ func genC20(g *G) {
 	}
 }
 
+// nlAttr frames one netlink attribute (length, type, payload, padding to 4) in native (little-endian) order.
+func nlAttr(typ uint16, payload []byte) []byte {
+	l := 4 + len(payload)
+	b := []byte{byte(l), byte(l >> 8), byte(typ), byte(typ >> 8)}
+	b = append(b, payload...)
+	for len(b)%4 != 0 {
+		b = append(b, 0)
+	}
+	return b
+}
+
+// genLinkInfoStreams: well-framed attribute streams around IFLA_LINKINFO whose fixed-size attributes have right and
+// wrong sizes in every position, repeated attributes, unknown attributes, other kinds.
+func genLinkInfoStreams(g *G, n int) {
+	sizes := map[uint16]int{1: 32, 2: 48, 3: 4, 5: 8, 8: 4}
+	infoTypes := []uint16{1, 2, 3, 5, 8, 4, 6, 99}
+	for i := 0; i < n; i++ {
+		var data []byte
+		na := g.R.Intn(5)
+		wrongAt := -1
+		if g.R.Intn(3) == 0 && na > 0 {
+			wrongAt = g.R.Intn(na)
+		}
+		for k := 0; k < na; k++ {
+			t := infoTypes[g.R.Intn(len(infoTypes))]
+			sz, fixed := sizes[t]
+			if !fixed {
+				sz = g.R.Intn(12)
+			}
+			if k == wrongAt && fixed {
+				sz = []int{0, sz - 1, sz + 1, sz + 4, 2 * sz, sz / 2}[g.R.Intn(6)]
+			}
+			data = append(data, nlAttr(t, randBytes(g, sz))...)
+		}
+		var li []byte
+		kind := g.R.Pick("can", "vcan", "can", "vcan", "bridge", "")
+		parts := [][]byte{nlAttr(1, append([]byte(kind), 0)), nlAttr(2|0x8000, data)}
+		if g.R.Intn(4) == 0 {
+			sz := 24
+			if g.R.Intn(3) == 0 {
+				sz = []int{0, 23, 25, 28, 48}[g.R.Intn(5)]
+			}
+			parts = append(parts, nlAttr(3, randBytes(g, sz)))
+		}
+		if g.R.Intn(4) == 0 {
+			parts[0], parts[1] = parts[1], parts[0]
+		}
+		for _, p := range parts {
+			li = append(li, p...)
+		}
+		var top []byte
+		if g.R.Bool() {
+			top = append(top, nlAttr(3, []byte("can0\x00"))...) // IFLA_IFNAME
+		}
+		top = append(top, nlAttr(18|0x8000, li)...)
+		if g.R.Intn(4) == 0 {
+			top = append(top, nlAttr(4, randBytes(g, 4))...) // IFLA_MTU
+		}
+		g.Emit("nlraw %s", HexS(top))
+		g.Tag("linkinfo-stream")
+	}
+}
+
 func init() {
 	RegGen("C20", genC20)
+	RegExec("nlraw", func(a []string) string {
+		kind, bt, m, f, err := candevice.VerifLinkInfoDecode(Hex(a[0]))
+		if err != nil {
+			return "dec-err"
+		}
+		return fmt.Sprintf("%s %s %d %d", kind, joinU32(bt[:]), m, f)
+	})
 	RegExec("nlsz", func(a []string) string {
 		s := candevice.VerifSizes()
 		return fmt.Sprintf("%d %d %d %d %d %d", s[0], s[1], s[2], s[3], s[4], s[5])
